@@ -367,8 +367,28 @@ pub fn run_one(run: u64, seed: u64) -> RunOut {
                 }));
             }
         }
-        let _ = &mut tx_ba;
+        // Back-pressure on the receiving endpoint's own event queue (half of the base-channel runs): B floods small
+        // items towards A behind a starved B>A direction, so that B's flow-credit returns have to wait for queue
+        // space while B's receive calls are being dropped and retried.
+        let pressure = kind == Kind::Base && rng.chance(50);
+        let mut flood = None;
+        if pressure {
+            net.set_starved(crate::simnet::Dir::BA, true);
+            let nf = 2 + rng.usize_below(10);
+            flood = Some(crate::sched::spawn(async move {
+                for i in 0..nf {
+                    if tx_ba.send(Ship::Item(Item::new(0x7000_0000 + i as u64, 1 + i % 5))).await.is_err() {
+                        break;
+                    }
+                }
+                tx_ba
+            }));
+            settle().await;
+            net.set_starved(crate::simnet::Dir::BA, false);
+            out.count("runs_with_receiver_event_queue_pressure", 1);
+        }
         settle().await;
+        drop(flood);
 
         // ---- oracle ----
         let sends_v = sends.lock().unwrap().clone();
